@@ -95,6 +95,13 @@ func (n *simNode) Run(ctx context.Context) {
 		case msg := <-n.messages:
 			n.d.OnReceive(msg)
 		}
+
+		// dBFT does not move to the next height by itself: once a block is
+		// accepted (ProcessBlock has updated our chain state) it's our duty
+		// to reinitialize it with the timestamp of that block.
+		if n.d.BlockSent() {
+			n.d.Reset(n.d.Timestamp)
+		}
 	}
 }
 
